@@ -380,6 +380,8 @@ class World:
             got = ["", NONE, None, None]
             try:
                 got[1] = self.project(cls.deserialize(r2))
+            except (TimeoutError, MemoryError):
+                raise
             except Exception as e:
                 got[0] = self.exc_name(e)
             got[2], got[3] = r2.position, r2.remaining
@@ -396,6 +398,8 @@ class World:
         try:
             o = cls.deserialize(r)
             out["obj"] = self.project(o)
+        except (TimeoutError, MemoryError):
+            raise
         except Exception as e:
             out["exc"] = self.exc_name(e)
             out["exc_msg"] = str(e)[:100]
@@ -419,6 +423,8 @@ class World:
                 o = cls.deserialize(r)
                 d["obj"] = self.project(o)
                 d["nested_size_mismatch"] = self.nested_sizes(o)
+            except (TimeoutError, MemoryError):
+                raise
             except Exception as e:
                 d["exc"] = self.exc_name(e)
                 d["exc_msg"] = str(e)[:100]
@@ -679,7 +685,8 @@ def main():
                 res["results"].append(fn(c))
             finally:
                 signal.alarm(0)
-        except TimeoutError:
+        except (TimeoutError, MemoryError):
+            # (a runaway loop ends either way: by the alarm or by the address-space limit)
             timeouts[c.get("prog")] = timeouts.get(c.get("prog"), 0) + 1
             res["results"].append({"harness_error": traceback.format_exc()[-800:], "timeout": True})
         except Exception:
